@@ -1,7 +1,10 @@
 import MicroHttp.Props.C02
+import MicroHttp.Props.C01
 #print axioms MicroHttp.C02.reqline_precedence
 #print axioms MicroHttp.C02.reqline_accept_iff
 #print axioms MicroHttp.C02.grammar_accepted
 #print axioms MicroHttp.C02.delivered_is_grammar
 #print axioms MicroHttp.C02.prefix_requests_delivered
 #print axioms MicroHttp.C02.first_bad_header_decides
+#print axioms MicroHttp.C01.tryRead_refines
+#print axioms MicroHttp.C01.sched_refines
